@@ -34,6 +34,12 @@ func New(srcDir, moqPkg string) (*Registry, error) {
 		return nil, fmt.Errorf("couldn't load source package: %s", err)
 	}
 
+	if moqPkg == srcPkg.Name {
+		// An explicit -pkg naming the source package is the source package
+		// itself: do not import it from its own mock.
+		moqPkg = ""
+	}
+
 	return &Registry{
 		srcPkgName:  srcPkg.Name,
 		srcPkgTypes: srcPkg.Types,
